@@ -41,6 +41,8 @@ def cases(ctx):
         kind = int(rng.integers(0, 3))
         classes = list(range(K)) if kind == 0 else ((list("abcdefg"[:K]) if K <= 7 else ["c%03d" % j for j in range(K)]) if kind == 1 else [10 * i - 7 for i in range(K)])
         m = int(rng.integers(0, 41)) if not many else int(rng.integers(60, 500))
+        if i < 3 or rng.random() < 0.02:  # sample counts at and around block sizes of a vectorised accumulation (three per run for certain)
+            m = [4096, 8192, 1024][i] if i < 3 else int(rng.choice([4096, 8192, 4095, 4097, 1024, 2048, 65536 // 8]))
         idx_l = rng.integers(0, K, m)
         idx_p = np.where(rng.random(m) < 0.6, idx_l, rng.integers(0, K, m))
         wk = int(rng.integers(0, 3))
